@@ -289,13 +289,15 @@ static void init_s4() {
     PROLOGS.push_back({"<!DOCTYPE r PUBLIC \"-//P//Q\" \"sub/ext2.dtd\" [<!ENTITY e \"iv\">]>", true, {{"/v/sub/ext2.dtd", "<!ENTITY e \"xv\"><!ENTITY % q SYSTEM \"q.pe\">%q;"}, {"/v/sub/q.pe", "<!ENTITY m \"<i>q</i>\">"}}});
     // external subset / external PE whose last construct is a reference to an internal parameter entity (no trailing character)
     PROLOGS.push_back({"<!DOCTYPE r SYSTEM \"pe-end.dtd\">", true, {{"/v/pe-end.dtd", "<!ENTITY e \"pv\"><!ENTITY % p \"<!ELEMENT r ANY><!ATTLIST r d CDATA 'pd'>\">%p;"}}});
-    ROOTATTR = {"", " d='o'", " t=' x  y '", "\nf='fx' i='r1'"};
+    // namespace declarations supplied by DTD attribute defaults, to be overridden (or not) by declarations written in the start tag
+    PROLOGS.push_back({"<!DOCTYPE r [<!ATTLIST r xmlns:p CDATA 'urn:dtd' d CDATA 'dv'><!ATTLIST c xmlns CDATA 'urn:cdef' xmlns:p CDATA #FIXED 'urn:dtd'>]>", true, {}});
+    ROOTATTR = {"", " xmlns:p='urn:doc' p:a='1'", " d='o'", " t=' x  y '", "\nf='fx' i='r1'"};
     ITEMS = {"t", " ", "\n", "\r\n", "\r", "\t", "&e;", "&m;", "&n;", "&cr;", "&lt2;", "&x;", "&#13;", "&#10;&#9;", "&#x20AC;", "&#x10000;", "\xC3\xA9",
              "<![CDATA[d]]>", "<![CDATA[]]>", "<![CDATA[<&]]]]>", "<!--k-->", "<?q r?>", "<?q?>", "<c/>", "<c d='y'/>", "<c d='z'/>", "<i>v</i>",
              "<c a=' &e; &#13;&#10; \r\n\t'/>", "<c a='&m;'/>", "<c a=\"'&quot;&lt;\"/>", "<c  a = 'v' \n/>", "<r:c xmlns:r='u' r:a='1'/>", "<c i='id1'/>",
-             "&u;", "]]", ">", "<i>\n<c/>\n</i>", "]", "]]>"};
+             "&u;", "]]", ">", "<i>\n<c/>\n</i>", "]", "]]>", "<p:k p:b='2'><c/></p:k>"};
 }
-static int g_s4_attrs = 4;
+static int g_s4_attrs = 5;
 static DocCase s4_case(uint64_t idx) {
     uint64_t nw = words_upto(ITEMS.size(), g_k);
     uint64_t w = idx % nw; idx /= nw;
@@ -645,7 +647,7 @@ int main(int argc, char** argv) {
         R.extra_json = "\"alphabet\":" + std::to_string(TOK.size()) + ",\"k\":" + std::to_string(g_k);
     } else if (space == "s4") {
         init_s4();
-        g_s4_attrs = (int)a.num("rootattrs", 4);
+        g_s4_attrs = (int)a.num("rootattrs", 5);
         R.total = words_upto(ITEMS.size(), g_k) * g_s4_attrs * PROLOGS.size();
         R.fn = run_s4;
         R.describe = [](uint64_t i) { DocCase d = s4_case(i); return "{\"doc\":" + jstr(d.doc) + "}"; };
